@@ -3,6 +3,7 @@ import json
 from collections import Counter, defaultdict
 
 from .. import gen
+from ..core import obs_of
 from ..rng import Rng
 
 ASSUMPTIONS = [
@@ -14,6 +15,7 @@ ASSUMPTIONS = [
 ]
 
 PAR, SEQ = "acts.core.parallel", "acts.core.sequence"
+TERMINAL_STATES = {"completed", "submitted", "backed", "cancelled", "error", "aborted", "skipped", "removed"}
 TERMINAL = {"completed", "submitted", "backed", "cancelled", "error", "aborted", "skipped", "removed"}
 DONE = TERMINAL - {"error"}
 EVENTS = ["created", "completed", "before_update", "updated", "step"]
@@ -537,6 +539,30 @@ def run(ctx):
             ctx.violation(f"C16|{sig}", what, {"scenario": sc})
         elif stats.get("groups") or stats.get("fires") or stats.get("pushes"):
             ctx.nontrivial([sc["models"], sc["ops"]])
+    # ---- (recorded finding, fixed scenarios) the client skips one generated act of a parallel generator while the other groups are open:
+    #      the generating act must not end before every generated act is terminal
+    fscs = []
+    for nel, which in ((2, 0), (3, 0), (3, 2), (4, 1)):
+        w = {"id": "m1", "steps": [{"id": "s1", "acts": [{"id": "g", "uses": PAR, "params": {"in": list(range(nel)), "acts": [{"id": "ga", "uses": gen.IRQ, "key": "kg"}]}}]},
+                                   {"id": "s2", "acts": [{"id": "z", "uses": gen.IRQ, "key": "kz"}]}]}
+        fscs.append({"id": f"c16-skip-one-group-{nel}-{which}", "config": {"keep": True, "dump_each": True}, "models": [w], "exprs": {},
+                     "ops": [["deploy", 0], ["start", "m1", {"pid": "p1"}], ["runall"], ["act", "skip", "p1", {"open": which}, {}], ["runall"]]})
+    for fsc, fres in zip(fscs, ctx.harness("run", fscs, tag="sk", shards=1)):
+        ctx.cov["evaluations"] += 1
+        last = None
+        for _, o in obs_of(fres, {"dump"}):
+            if o.get("pid") == "p1" and not o.get("absent"):
+                last = o
+        if last is None:
+            continue
+        tot["skip_one_group_runs"] += 1
+        g = [t for t in last["tasks"] if t["nid"] == "g"]
+        open_acts = [t["tid"] for t in last["tasks"] if t["nid"] == "ga" and t["state"] in ("interrupted", "running", "pending", "ready", "none")]
+        if g and g[0]["state"] in TERMINAL_STATES and open_acts:
+            ctx.violation("C16|generator-ends-before-groups|skip-one-group", f"one generated act of the parallel generator g was skipped by the client: g is {g[0]['state']} "
+                          f"and the flow has gone on while the generated acts {open_acts} are still open", {"scenario": fsc})
+        else:
+            ctx.nontrivial(["skip-one-group", fsc["id"]])
     ctx.sample({"model": scs[0]["models"][0], "ops": scs[0]["ops"][:5]}, limit=1)
     ctx.cov["correspondence"] = {"distribution": dict(tot), "streams_compared": ["messages of generated acts ($index/$value, order, round) against `Generate.expand` evaluated by the Lean driver", "hook messages against `Generate.fires` (Lean) over the lifecycle events read off the transitions",
                                                                                "tasks created by a push"]}
